@@ -502,7 +502,7 @@ fn gen_source(
             6 => {
                 // tag
                 if listening.is_none() {
-                    let name = format!("{}{}", rng.pick(&["T", "TAG_", "A1", "é"]), pending_tags.len() + counter);
+                    let name = format!("{}{}", rng.pick(&["T", "TAG_", "A1", "é", "SEC A", "T -->"]), pending_tags.len() + counter);
                     // avoid prefix-related names
                     if !pending_tags.iter().any(|t| t.starts_with(&name) || name.starts_with(t.as_str())) {
                         let pre_opt = if rng.chance(1, 3) { String::new() } else { pre.clone() };
